@@ -153,6 +153,15 @@ pub fn test_case(case: &ReuseCase) -> TestResult {
                 }
                 last_pred = Some(pi);
                 linked = Some(pi);
+                // whatever the history (edited boundaries, earlier predictions by this or another
+                // predictor), a prediction gives what a fresh sentence with this text gets
+                let mut f = Sentence::from_raw(s.as_raw_text().to_string()).map_err(|e| e.to_string())?;
+                ps[pi].predict(&mut f);
+                ensure_eq!(
+                    (s.boundaries(), s.boundary_scores()),
+                    (f.boundaries(), f.boundary_scores()),
+                    "after op {k} {op:?}: prediction on the reused sentence differs from a fresh one"
+                );
             }
             Op::FillTags => {
                 // documented panic if the linked predictor was built without tag prediction
@@ -468,7 +477,7 @@ supervisor script",
 
 pub fn run(rep: &mut Report) {
     assert_send_sync::<Predictor>();
-    let n = rep.n(25000, 250000);
+    let n = rep.n(25000, 1000000);
     rep.run_prop(
         "histories",
         "two generated models A, B -> six predictors (no tags / tags / tags + score storing); \
@@ -484,7 +493,7 @@ tag state behind or contains a failed update.",
         test_case,
     );
     let threads = if rep.quick() { 8 } else { 16 };
-    let n = rep.n(400, 4000);
+    let n = rep.n(400, 10000);
     rep.run_prop(
         "threads",
         "one Arc<Predictor> (tags + score storing) shared by 8 (quick) / 16 (thorough) threads, \
